@@ -89,3 +89,18 @@ func VerifC07_MatcherExclusive() {
 	}
 	verif.Cover("end")
 }
+
+// VerifC08_MatchersArbitrary: every protocol matcher that automatic detection
+// consults, on an arbitrary byte string of 0..N bytes (every length, so also
+// strings that end right behind a recognised token): none panics or reads
+// outside the received bytes, each answers match / no match / need more.
+func VerifC08_MatchersArbitrary() {
+	verif.NoPanic()
+	n := verif.Len("n", 0, verif.Param("MN", 20, 26))
+	s := verif.Bytes("s", n)
+	r := zzAll(s)
+	for i := range r {
+		verif.Assert(r[i] == zzAgain || r[i] == zzSuccess || r[i] == zzFailed, "matcher "+zzNames[i]+" gave no verdict")
+	}
+	verif.Cover("end")
+}
